@@ -96,6 +96,22 @@ spec fn sym_range(s: Symbol) -> ast::Range {
         Symbol::Type(t) => t.symbol_range,
     }
 }
+// the whole construct a symbol stands for
+spec fn sym_full_range(s: Symbol) -> ast::Range {
+    match s {
+        Symbol::Package(p) => p.full_range,
+        Symbol::Import(i) => i.full_range,
+        Symbol::Interface(i, _) => i.full_range,
+        Symbol::Parcelable(p, _) => p.full_range,
+        Symbol::Enum(e, _) => e.full_range,
+        Symbol::Method(m, _) => m.full_range,
+        Symbol::Arg(a, _) => a.full_range,
+        Symbol::Const(c, _) => c.full_range,
+        Symbol::Field(f, _) => f.full_range,
+        Symbol::EnumElement(e, _) => e.full_range,
+        Symbol::Type(t) => t.full_range,
+    }
+}
 spec fn hit(s: Symbol, p: (usize, usize)) -> bool { contains_lc(sym_range(s), p) }
 
 // find_symbol: the first symbol of the traversal sequence the predicate accepts (all earlier ones rejected), or nothing
